@@ -385,6 +385,13 @@ def check_secblocks(case, obs):
         with_params = bool(params) or idx % 3 == 0
         results = [[(rng.choice([1, 17, 18, 97]), bytes(rng.randrange(256) for _ in range(rng.choice([0, 16, 32, 64]))))
                     for _ in range(rng.randint(1, 2))] for _ in targets]
+        # a target may have no result at all (the tag stays inside the cipher text): the empty array keeps its place
+        if idx % 4 == 1:
+            results[-1] = []
+        if idx % 8 == 3:
+            results = [[] for _ in targets]
+        if not all(results):
+            obs['secblocks_with_empty_result_array'] = obs.get('secblocks_with_empty_result_array', 0) + 1
         kwargs = dict(targets=targets, context_id=ctx, context_flags=1 if with_params else 0, source=src,
                       results=[TargetResultList(results=[TypeValuePair(type_code=tid, value=val) for (tid, val) in res]) for res in results])
         if with_params:
@@ -409,7 +416,7 @@ def check_secblocks(case, obs):
             if isinstance(back, cls):
                 back_vals = (list(back.getfieldval('targets')), back.getfieldval('context_id'), int(back.getfieldval('context_flags')), back.getfieldval('source'),
                              [(par.getfieldval('type_code'), par.getfieldval('value')) for par in (back.getfieldval('parameters') or [])],
-                             [[(r.getfieldval('type_code'), r.getfieldval('value')) for r in trl.getfieldval('results')] for trl in back.getfieldval('results')])
+                             [[(r.getfieldval('type_code'), r.getfieldval('value')) for r in (trl.getfieldval('results') or [])] for trl in back.getfieldval('results')])
         except Exception as err:  # pylint: disable=broad-except
             viols.append(('secblock', 'type %d block built from fields: %s: %s' % (btype, type(err).__name__, str(err)[:100]), {}))
             continue
@@ -421,6 +428,45 @@ def check_secblocks(case, obs):
         want_vals = (targets, ctx, 1 if with_params else 0, src, params if with_params else [], results)
         if back_vals != want_vals:
             viols.append(('secblock', 'type %d block built from fields decodes to %r, built from %r' % (btype, back_vals, want_vals), dict(encoded=enc.hex())))
+    return viols
+
+
+def check_fragment_field_history(case, obs):
+    ''' A primary block whose fragment bit was cleared by the program while the two fragment fields still hold values (what
+    reassembly does with a copy of a fragment's primary block) is a non-fragment: 8 or 9 items, flags as set. '''
+    from bp.encoding import Bundle, PrimaryBlock
+    rng = random.Random(case['seed'] + 991)
+    viols = []
+    for idx in range(12):
+        crc = idx % 3
+        total = rng.choice([12, 24, 300, 70000])
+        offset = rng.randrange(0, total - 5)
+        flags = rng.choice([0, bpv7.FLAG_REQ_DELIVERY, bpv7.FLAG_ADMIN if hasattr(bpv7, 'FLAG_ADMIN') else 2])
+        pri = dict(version=7, flags=flags | bpv7.FLAG_IS_FRAGMENT, crc_type=crc, dest='dtn://d/x', src='dtn://s/y', report_to='dtn:none',
+                   create_time=1000 + idx, seqno=idx, lifetime=5000, frag_offset=offset, total_adu_len=total, crc=None)
+        enc = bpv7.encode(dict(primary=pri, blocks=[dict(type=1, num=1, flags=0, crc_type=crc, data=bytes(range(5)), crc=None)]))
+        obs['fragment_field_histories'] = obs.get('fragment_field_histories', 0) + 1
+        try:
+            bundle = Bundle(enc)
+            if idx % 2:
+                primary = bundle.primary.copy()
+            else:
+                primary = bundle.primary
+            primary.bundle_flags &= ~PrimaryBlock.Flag.IS_FRAGMENT
+            primary.crc_value = None
+            primary.update_crc()
+            bundle.primary = primary
+            out = bytes(bundle)
+            dec, problems = bpv7.decode(out)
+        except Exception as err:  # pylint: disable=broad-except
+            viols.append(('fragment-fields', 'clearing the fragment bit of a decoded fragment and encoding: %s: %s' % (type(err).__name__, str(err)[:100]), {}))
+            continue
+        if problems:
+            viols.append(('fragment-fields', 'primary block with the fragment bit cleared encodes to a bundle that is not well-formed: %s' % (problems[:2],),
+                          dict(encoded=out.hex())))
+        elif dec['primary']['flags'] != flags or dec['primary']['frag_offset'] is not None:
+            viols.append(('fragment-fields', 'primary block set to flags %#x (not a fragment) is encoded with flags %#x and fragment fields %r/%r' % (
+                flags, dec['primary']['flags'], dec['primary']['frag_offset'], dec['primary']['total_adu_len']), dict(encoded=out.hex())))
     return viols
 
 
@@ -465,7 +511,7 @@ def run_case(case):
     violations = []
     classes = set()
     if case['kind'] == 'times':
-        viols = check_times(case, obs) + check_bytes_like(obs) + check_secblocks(case, obs) + check_crc_history(case, obs)
+        viols = check_times(case, obs) + check_bytes_like(obs) + check_secblocks(case, obs) + check_crc_history(case, obs) + check_fragment_field_history(case, obs)
         violations = [dict(key=None, what='%s: %s' % (kind, what), detail=detail) for (kind, what, detail) in viols[:10]]
         return dict(verdict='violated' if violations else 'held', nontrivial=True, cls={'times|%d' % case['seed']}, obs=obs,
                     violations=violations, sample=dict(kind='times'), evaluations=obs.get('time_conversions', 0))
